@@ -120,9 +120,13 @@ func statusFromGRPCMetadata(md http.Header) (*Status, error) {
 		if ds.Code != st.Code {
 			return nil, fmt.Errorf("refwire: details status code %d != grpc-status %d", ds.Code, st.Code)
 		}
-		if ds.Message != st.Message {
+		// HTTP strips optional whitespace around field values, so blanks at
+		// either end of grpc-message are not significant; the binary status
+		// carries the exact text.
+		if strings.Trim(ds.Message, " \t") != strings.Trim(st.Message, " \t") {
 			return nil, fmt.Errorf("refwire: details status message %q != grpc-message %q", ds.Message, st.Message)
 		}
+		st.Message = ds.Message
 		st.Details = ds.Details
 	}
 	return st, nil
